@@ -29,6 +29,7 @@ def make_cfg(gated: set) -> pg.GenCfg:
     cfg = pg.GenCfg()
     cfg.reexport_forms = tuple(f for f in pg.ALL_REEXPORT_FORMS if f"reexport:{f}" not in gated)
     cfg.foreign = True
+    cfg.local_foreign = True
     cfg.p_reexport = 0.45
     cfg.max_depth = 4
     return cfg
@@ -41,6 +42,7 @@ def gen(tier: str, seed: int) -> list[Case]:
     cases = []
     spell = ["abs", "rel", "abs_slash", "rel_slash", "dotdot", "rel_dot"]
     for i in range(n):
+        cfg.local_foreign_lower = i % 2 == 0  # lower-case class names only without naming conversion (recorded finding)
         pkg = pg.random_pkg(rng, cfg)
         add_name_clashes(rng, pkg)
         cases.append(
